@@ -1,13 +1,43 @@
 //! C02: every completed version keeps restoring to its own snapshot, across histories of
 //! source changes, backups, interrupted + resumed backups, deletes and gc.
 use crate::hist::*;
+use crate::icept::IceptConfig;
+use crate::real::*;
+use crate::treespec::observe;
 use crate::report::Report;
 use crate::rng::Rng;
 use crate::treespec::GenOpts;
 use serde_json::json;
 
+/// Directed: a LONG history (real code + the property's own oracle): 112 versions, then a gc, a delete of two
+/// versions and one more backup; every surviving version still restores to the tree it was made from and
+/// "latest" is the newest.
+fn long_history(report: &mut Report) {
+    let n = 112u32;
+    let (work, arch, src, mut snaps) = crate::sweep::many_versions(n);
+    report.case("long-history", true);
+    report.hit("directed:long-history(112 versions)");
+    let all: Vec<u32> = (0..n).collect();
+    crate::sweep::many_versions_restore_all(report, "hist:restored-differs-long-history", "112 backups", work.path(), &arch, &snaps, &all);
+    let _ = real_delete(&arch, &[], false, false, IceptConfig::default());
+    crate::sweep::many_versions_restore_all(report, "hist:restored-differs-long-history", "gc", work.path(), &arch, &snaps, &all);
+    let _ = real_delete(&arch, &[7, 50], false, false, IceptConfig::default());
+    let keep: Vec<u32> = (0..n).filter(|b| *b != 7 && *b != 50).collect();
+    crate::sweep::many_versions_restore_all(report, "hist:restored-differs-long-history", "delete b0007 b0050", work.path(), &arch, &snaps, &keep);
+    std::fs::write(src.join("journal"), b"the last one").unwrap();
+    let r = real_backup(&arch, &src, &BackupParams::default(), IceptConfig::default());
+    if r.result.starts_with("result ok") {
+        snaps.insert(n, observe(&src));
+        let (rr, robs) = restore_observe(&arch, work.path(), &Sel::Closed, "latest-long");
+        if !rr.result.starts_with("result ok") || !rr.events.is_empty() || crate::c01::tree_diff(&snaps[&n], &robs).is_some() {
+            report.oracle_fail("hist:latest-wrong-version-long-history", json!({"directed": "long-history"}), "after 113 versions the latest complete version is not the newest one", json!(crate::compare::trunc(&rr.result)));
+        }
+    }
+}
+
 pub fn run(tier: &str, seed: u64, report: &mut Report) {
     let thorough = tier == "thorough";
+    long_history(report);
     let n_hist = if thorough { 400 } else { 30 };
     let max_steps = if thorough { 24 } else { 12 };
     for h in 0..n_hist {
